@@ -17,7 +17,8 @@ def validate_coroutine(ctx, name):
         return None, None
     for b in ctx.facts.with_descendants(vb):
         if any(callee_matches(t, r"tokio::task::JoinSet::<T>::spawn$") for bi, t in b.calls()):
-            return vb, b
+            # normalised view: block selection written as a pipeline reads like the `if let … else continue`
+            return vb, ctx.inl(b, skip=ctx.domain_api, tag="domain", sugar=True)
     return vb, None
 
 
@@ -64,6 +65,15 @@ def check_once(ctx, out, prefix, name, per_task_call_rx, per_task_what):
     for x in walk(te):
         if x[0] == "agg" and x[1].startswith("closure:"):
             task = ctx.facts.body(x[1][8:])
+    if task is None and te[0] == "call":
+        # `tasks.spawn(check_one(args..))`: the future of an async fn of the crate - its body is the task
+        for cand in [c for c in ctx.facts.bodies.values() if c.promoted is None and c.kind in ("Fn", "AssocFn")]:
+            if te[1].endswith(cand.id.split("::")[-1]) and (te[1] == cand.id or cand.id.endswith(te[1].split("::")[-1])):
+                for bi2, j2, s2 in cand.assigns():
+                    if s2["rv"]["k"] == "agg" and s2["rv"].get("agg") in ("coroutine", "closure") and s2["lhs"]["l"] == 0:
+                        tb = ctx.facts.body(s2["rv"]["path"])
+                        if tb is not None and tb.coroutine:
+                            task = tb
     if task is None:
         out.viol(rule, "%s|task-body" % rule, ctx.where(co, st["span"]), "the spawned future is not an async block of the validator")
         out.inst(rule, n, 4)
@@ -147,6 +157,8 @@ def check_content_selector(ctx, out, prefix, fn_body, pattern_key):
     if b is None:
         out.inst(rule, 0, 5, note="content selector not found")
         return
+    if not getattr(b, "is_inlined", False):
+        b = ctx.inl(b, skip=ctx.domain_api, tag="domain", sugar=True)
     cfg = cfg_of(b)
     E = ctx.expr(b)
     keys = [util.const_val(ctx, b, t["args"][1]) for bi, t in b.calls() if callee_matches(t, r"HashMap::<K, V, S, A>::get$")]
